@@ -211,6 +211,48 @@ impl Uni for EnM {
 	}
 }
 
+/// two variants with the same field types, the later one longer on the wire
+#[derive(Encode, Decode, MaxEncodedLen, Debug, PartialEq, Clone)]
+pub enum MelDup {
+	A(u64),
+	B(#[codec(compact)] u64),
+	C(#[codec(skip)] u128, u8),
+	D(u128, u8),
+}
+impl Uni for MelDup {
+	fn desc() -> String {
+		format!(
+			"(TEnum (VsCons 0 {} (VsCons 1 {} (VsCons 2 {} (VsCons 3 {} VsNil)))))",
+			nest("TPair", "TUnit", &[u64::desc()]),
+			nest("TPair", "TUnit", &["(TCompact 8)".to_string()]),
+			nest("TPair", "TUnit", &[u8::desc()]),
+			nest("TPair", "TUnit", &[u128::desc(), u8::desc()])
+		)
+	}
+	fn gen(r: &mut Rng, d: u32) -> Self {
+		match r.below(4) {
+			0 => MelDup::A(u64::gen(r, d)),
+			1 => MelDup::B(u64::gen(r, d)),
+			2 => MelDup::C(0, u8::gen(r, d)),
+			_ => MelDup::D(u128::gen(r, d), u8::gen(r, d)),
+		}
+	}
+	fn val(&self) -> String {
+		match self {
+			MelDup::A(a) => format!("(VVar 0 {})", nest("VPair", "VUnit", &[a.val()])),
+			MelDup::B(a) => format!("(VVar 1 {})", nest("VPair", "VUnit", &[format!("(VN {a})")])),
+			MelDup::C(_, b) => format!("(VVar 2 {})", nest("VPair", "VUnit", &[b.val()])),
+			MelDup::D(a, b) => format!("(VVar 3 {})", nest("VPair", "VUnit", &[a.val(), b.val()])),
+		}
+	}
+	fn same(&self, o: &Self) -> bool {
+		self == o
+	}
+	fn min_wire() -> usize {
+		2
+	}
+}
+
 pub fn run(args: &Args) {
 	quiet_panics();
 	let mut cx = Cx {
@@ -236,7 +278,7 @@ pub fn run(args: &Args) {
 			Box<u8>, Box<(u8, Compact<u16>)>, Box<[u8; 16]>, Arc<u64>, Arc<Option<Box<u32>>>,
 			S1, UnitS, Nt, Sk, Disc, G<u8>, G<Option<Box<u8>>>, G<Compact<u64>>, Tr, Box<Tr>, [Disc; 3], (S1, Disc), Option<Sk>,
 			CpM, EaM, EnM, [CpM; 2], Option<EaM>, (EnM, CpM), G<CpM>,
-			Result<u8, u32>, Result<bool, u128>, Result<(), [u8; 9]>, Unit1, TrE, OneV, OneSk, Option<OneV>, [OneSk; 2], (Unit1, OneV), Box<TrE>
+			Result<u8, u32>, Result<bool, u128>, Result<(), [u8; 9]>, Unit1, TrE, OneV, OneSk, Option<OneV>, [OneSk; 2], (Unit1, OneV), Box<TrE>, MelDup, [MelDup; 2], Option<MelDup>
 		);
 		crate::for_types!(cel_type, cx;
 			u8, u16, u32, u64, u128, i8, i16, i32, i64, i128, bool, (),
